@@ -21,7 +21,7 @@ LOOPS = {0: '__CPROVER_assigns(__r, g_cur_region, __CPROVER_object_whole(g_acc))
             '__CPROVER_loop_invariant(g_acc[__r] == ((0 <= g_wit[__r] && g_wit[__r] < state_identity) ? 1 : 0))\n'
             '__CPROVER_decreases(g_m - state_identity)'}
 xfv = back_xform(['get_state_id', 'accept'], refparams=('sm',), enums=ENUMS, drop=DROP2, foreach=True, size_of=gm, pre_rewrites=PRE, rewrites=RW)
-UNITS.append(Unit('backmp11.state_visitor_impl.active.visit', ['C03', 'C17', 'C13'], 'backmp11',
+UNITS.append(Unit('backmp11.state_visitor_impl.active.visit', ['C03', 'C17', 'C02', 'C13'], 'backmp11',
     Part(SV, ['class state_visitor_impl <'], 'static void visit ( StateMachine & sm , Visitor & visitor )', nth=0),
     'void visit_active(fsm_t* sm)', 'visitor_mp11.spec.h', xform=xfv, loops=LOOPS, replay=['order', 'block']))
 UNITS.append(Unit('backmp11.event_deferral_visitor.visit', ['C05', 'C03', 'C13'], 'backmp11',
